@@ -206,4 +206,42 @@ def ringMarks (m : Mol) (sssr : List Ring) : List AtomMark :=
         let amr := (ar.lookup mb.1).getD []
         (mb.1, anr.any fun r => amr.contains r) }
 
+/-! ## `MoleculeContainer.aromatic_rings` -/
+
+/-- `bonds[a][b] == 4`; `none` = KeyError -/
+def bondIs4 (m : Mol) (a b : Nat) : Option Bool := (m.bond? a b).map fun bd => bd.order == 4
+
+/-- `all(bonds[n][m] == 4 for n, m in pairs)` with Python's short circuit; `none` = KeyError before a `False` -/
+def allBonds4 (m : Mol) : List (Nat × Nat) → Option Bool
+  | [] => some true
+  | ab :: rest =>
+    match bondIs4 m ab.1 ab.2 with
+    | none => none
+    | some false => some false
+    | some true => allBonds4 m rest
+
+/-- the bond look-ups of `aromatic_rings` for one ring, in evaluation order:
+`bonds[ring[0]][ring[-1]]` first, then `zip(ring, ring[1:])` -/
+def ringBondPairs (ring : Ring) : List (Nat × Nat) :=
+  match ring with
+  | [] => []
+  | r0 :: tl => (r0, (ring.getLast?).getD r0) :: ring.zip tl
+
+/-- `bonds[ring[0]][ring[-1]] == 4 and all(...)`; `none` = IndexError (empty ring) / KeyError -/
+def isAromaticRing (m : Mol) (ring : Ring) : Option Bool :=
+  match ring with
+  | [] => none
+  | _ :: _ => allBonds4 m (ringBondPairs ring)
+
+/-- `tuple(ring for ring in self.sssr if …)`; `none` = the generator raised -/
+def aromaticRings (m : Mol) : List Ring → Option (List Ring)
+  | [] => some []
+  | r :: rs =>
+    match isAromaticRing m r with
+    | none => none
+    | some b =>
+      match aromaticRings m rs with
+      | none => none
+      | some out => some (if b then r :: out else out)
+
 end ChythonModel.Model.C06
